@@ -69,6 +69,9 @@ impl Monitor for C05 {
     fn prop(&self) -> &'static str {
         "C05"
     }
+    fn scalable(&self, g: &str) -> bool {
+        g != "arith"
+    }
     fn gens(&self, tier: Tier) -> Vec<Gen> {
         let arith = match tier {
             Tier::Quick => quick_lasts().len() as u64,
